@@ -1,6 +1,6 @@
-(* Simulation lemma for DeleteColumn of a column that single-column UNIQUE / INDEX keys are made of: MySQL drops the
-   emptied keys with the column [M7], the baseline drops the emptied constraints (apply.rs retain_mut).  Every other
-   constraint of the table does not mention the column. *)
+(* Simulation lemma for DeleteColumn of a column that single-column PRIMARY KEY / UNIQUE / INDEX keys are made of: MySQL
+   drops the emptied keys with the column [M7], the baseline drops the emptied constraints (apply.rs retain_mut).  Every
+   other constraint of the table does not mention the column. *)
 From VV.MYSQL Require Import SpecFk ModifyP SimP SimKeysP SimCreateP SimFkP SimRemoveP.
 From Coq Require Import Lia.
 
@@ -49,38 +49,108 @@ Proof.
 Qed.
 
 Lemma single_key_shape : forall c k, single_key_of c k = true ->
-  exists n x, String.eqb x c = true /\ (k = CUnique n [x] \/ k = CIndex n [x]).
+  exists x, String.eqb x c = true /\ ((exists n, k = CUnique n [x]) \/ (exists n, k = CIndex n [x]) \/ (exists a, k = CPrimaryKey a [x])).
 Proof.
   intros c k S. destruct k as [a cols|n cols|n cols rt rcols od ou|n e|n cols]; cbn [single_key_of] in S; try discriminate;
-    destruct cols as [|x [|y r']]; try discriminate; exists n, x; split; auto.
+    destruct cols as [|x [|y r']]; try discriminate; exists x; split; eauto.
 Qed.
 
 Lemma flat_map_keeps : forall (A : Type) (g : table_constraint -> list A) c ks,
-  (forall n x, g (CUnique n [x]) = [] /\ g (CIndex n [x]) = []) ->
+  (forall n x, g (CUnique n [x]) = [] /\ g (CIndex n [x]) = []) -> (forall a x, g (CPrimaryKey a [x]) = []) ->
   flat_map g (filter (keeps c) ks) = flat_map g ks.
 Proof.
-  intros A g c ks Hg. induction ks as [|k r IH]; [reflexivity|].
+  intros A g c ks Hg Hp. induction ks as [|k r IH]; [reflexivity|].
   cbn [filter]. unfold keeps at 1. destruct (single_key_of c k) eqn:S; cbn [negb flat_map]; [|rewrite IH; reflexivity].
-  destruct (single_key_shape c k S) as [n [x [_ [E|E]]]]; subst k; rewrite (proj1 (Hg n x)) || rewrite (proj2 (Hg n x)); exact IH.
+  destruct (single_key_shape c k S) as [x [_ [[n E]|[[n E]|[a E]]]]]; subst k.
+  - rewrite (proj1 (Hg n x)). exact IH.
+  - rewrite (proj2 (Hg n x)). exact IH.
+  - rewrite (Hp a x). exact IH.
 Qed.
 
-Lemma first_pk_keeps : forall c ks, first_pk (filter (keeps c) ks) = first_pk ks.
+Lemma filter_comm : forall (A : Type) (p q : A -> bool) l, filter p (filter q l) = filter q (filter p l).
 Proof.
-  intros c ks. unfold first_pk.
-  assert (E : filter is_pk (filter (keeps c) ks) = filter is_pk ks); [|rewrite E; reflexivity].
-  induction ks as [|k r IH]; [reflexivity|].
-  cbn [filter]. unfold keeps at 1. destruct (single_key_of c k) eqn:S; cbn [negb filter]; [|rewrite IH; reflexivity].
-  destruct (single_key_shape c k S) as [n [x [_ [E|E]]]]; subst k; exact IH.
+  intros A p q l. induction l as [|x r IH]; [reflexivity|]. cbn [filter].
+  destruct (q x) eqn:Q; destruct (p x) eqn:Pp; cbn [filter]; rewrite ?Q, ?Pp, IH; reflexivity.
 Qed.
 
-Lemma auto_cols_keeps : forall c ks, auto_increment_columns (filter (keeps c) ks) = auto_increment_columns ks.
-Proof. intros c ks. unfold auto_increment_columns. apply flat_map_keeps. intros; split; reflexivity. Qed.
+(* the primary key after the drop, as MySQL computes it [M7] *)
+Definition pk_shrink (c : string) (o : option (list string)) : option (list string) :=
+  match o with Some p => if nonempty (drop_in c p) then Some (drop_in c p) else None | None => None end.
+Definition pk_hyp (c : string) (o : option (list string)) : Prop :=
+  match o with
+  | Some p => (exists x, p = [x] /\ String.eqb x c = true) \/ (mem_str c p = false /\ nonempty p = true)
+  | None => True
+  end.
+
+Lemma pk_hyp_first : forall c ks, (forall k, In k ks -> key_hyp c k) -> pk_hyp c (first_pk ks).
+Proof.
+  intros c ks H. unfold pk_hyp. destruct (first_pk ks) as [p|] eqn:Fp; [|exact I].
+  destruct (first_pk_in _ _ Fp) as [a Ia]. destruct (H _ Ia) as [[S _]|[_ [M [N _]]]].
+  - left. destruct (single_key_shape c _ S) as [x [X [[n E]|[[n E]|[a' E]]]]]; try discriminate. inversion E; subst. exists x. split; [reflexivity|exact X].
+  - right. cbn [constraint_mentions constraint_nonempty constraint_columns] in M, N. split; assumption.
+Qed.
+
+Lemma first_pk_keeps : forall c ks,
+  (forall k, In k ks -> key_hyp c k) -> Nat.leb (List.length (filter is_pk ks)) 1 = true ->
+  first_pk (filter (keeps c) ks) = pk_shrink c (first_pk ks).
+Proof.
+  intros c ks H Hle. unfold first_pk. rewrite filter_comm.
+  destruct (filter is_pk ks) as [|k [|k2 r]] eqn:F; [reflexivity| |discriminate].
+  assert (Ik : In k (filter is_pk ks)) by (rewrite F; left; reflexivity).
+  apply filter_In in Ik. destruct Ik as [Ik Pk].
+  destruct k as [a cols|n cols|n cols rt rcols od ou|n e|n cols]; try discriminate.
+  cbn [filter]. unfold keeps. destruct (H _ Ik) as [[S _]|[S [M [N _]]]]; rewrite S; cbn [negb].
+  - destruct (single_key_shape c _ S) as [x [X [[n E]|[[n E]|[a' E]]]]]; try discriminate. inversion E; subst.
+    unfold pk_shrink. rewrite (drop_in_single c x X). reflexivity.
+  - cbn [constraint_mentions constraint_nonempty constraint_columns] in M, N.
+    unfold pk_shrink. rewrite (drop_in_notin _ _ M), N. reflexivity.
+Qed.
+
+(* a test that the one-column key [c] fails cannot tell the primary key before from the primary key after *)
+Lemma existsb_pk_shrink : forall c (q : list string -> bool) o,
+  (forall x, String.eqb x c = true -> q [x] = false) -> pk_hyp c o ->
+  existsb q (match pk_shrink c o with Some p => [p] | None => [] end) = existsb q (match o with Some p => [p] | None => [] end).
+Proof.
+  intros c q o Hq Ho. destruct o as [p|]; [|reflexivity]. cbn [pk_hyp] in Ho. unfold pk_shrink.
+  destruct Ho as [[x [E X]]|[M N]].
+  - subst p. rewrite (drop_in_single c x X). cbn [nonempty existsb]. rewrite (Hq x X). reflexivity.
+  - rewrite (drop_in_notin _ _ M), N. reflexivity.
+Qed.
+
+Lemma mem_pk_shrink : forall c y o, String.eqb y c = false -> pk_hyp c o ->
+  mem_str y (match pk_shrink c o with Some p => p | None => [] end) = mem_str y (match o with Some p => p | None => [] end).
+Proof.
+  intros c y o Hy Ho. destruct o as [p|]; [|reflexivity]. cbn [pk_hyp] in Ho. unfold pk_shrink.
+  destruct Ho as [[x [E X]]|[M N]].
+  - subst p. rewrite (drop_in_single c x X). cbn [nonempty]. unfold mem_str. cbn [existsb].
+    apply String.eqb_eq in X. subst x. rewrite Hy. reflexivity.
+  - rewrite (drop_in_notin _ _ M), N. reflexivity.
+Qed.
+
+Lemma auto_mem_keeps : forall c y ks, String.eqb y c = false ->
+  mem_str y (auto_increment_columns (filter (keeps c) ks)) = mem_str y (auto_increment_columns ks).
+Proof.
+  intros c y ks Hy. unfold auto_increment_columns. induction ks as [|k r IH]; [reflexivity|].
+  cbn [filter]. unfold keeps at 1. destruct (single_key_of c k) eqn:S; cbn [negb flat_map].
+  - rewrite mem_str_app, IH.
+    destruct (single_key_shape c k S) as [x [X [[n E]|[[n E]|[a E]]]]]; subst k; try reflexivity.
+    destruct a; [|reflexivity]. unfold mem_str at 2. cbn [existsb]. apply String.eqb_eq in X. subst x. rewrite Hy. reflexivity.
+  - rewrite !mem_str_app, IH. reflexivity.
+Qed.
+
+Lemma mk_mcol_keeps : forall c ks x,
+  (forall k, In k ks -> key_hyp c k) -> Nat.leb (List.length (filter is_pk ks)) 1 = true ->
+  String.eqb (c_name x) c = false -> mk_mcol (filter (keeps c) ks) x = mk_mcol ks x.
+Proof.
+  intros c ks x H Hle Hx. unfold mk_mcol. rewrite (first_pk_keeps c ks H Hle).
+  rewrite (mem_pk_shrink c (c_name x) (first_pk ks) Hx (pk_hyp_first c ks H)), (auto_mem_keeps c (c_name x) ks Hx). reflexivity.
+Qed.
 
 Lemma create_fks_keeps : forall t c ks, create_fks t (filter (keeps c) ks) = create_fks t ks.
-Proof. intros t c ks. unfold create_fks. apply flat_map_keeps. intros; split; reflexivity. Qed.
+Proof. intros t c ks. unfold create_fks. apply flat_map_keeps; intros; try split; reflexivity. Qed.
 
 Lemma checks_keeps : forall c ks, checks_of (filter (keeps c) ks) = checks_of ks.
-Proof. intros c ks. unfold checks_of. apply flat_map_keeps. intros; split; reflexivity. Qed.
+Proof. intros c ks. unfold checks_of. apply flat_map_keeps; intros; try split; reflexivity. Qed.
 
 Lemma shrink_id : forall c (l : list mindex),
   (forall i, In i l -> mem_str c (ix_cols i) = false /\ nonempty (ix_cols i) = true) -> shrink c l = l.
@@ -98,9 +168,8 @@ Proof.
   specialize (IH (fun k' Ik => H k' (or_intror Ik))).
   cbn [filter flat_map]. rewrite shrink_app, <- IH. unfold keeps at 1.
   destruct (H k (or_introl eq_refl)) as [[S D]|[S [M [N D]]]]; rewrite S; cbn [negb].
-  - destruct k as [a cols|n cols|n cols rt rcols od ou|n e|n cols]; cbn [single_key_of] in S; try discriminate;
-      destruct cols as [|x [|y r']]; try discriminate; [|reflexivity].
-    cbn [shrink flat_map ix_cols]. rewrite (drop_in_single c x S). reflexivity.
+  - destruct (single_key_shape c k S) as [x [X [[n E]|[[n E]|[a E]]]]]; subst k; try reflexivity.
+    cbn [shrink flat_map ix_cols]. rewrite (drop_in_single c x X). reflexivity.
   - cbn [flat_map]. f_equal.
     destruct k as [a cols|n cols|n cols rt rcols od ou|n e|n cols]; try reflexivity.
     cbn [constraint_mentions constraint_nonempty constraint_columns] in M, N.
@@ -115,9 +184,8 @@ Proof.
   specialize (IH (fun k' Ik => H k' (or_intror Ik))).
   cbn [filter flat_map]. rewrite shrink_app, <- IH. unfold keeps at 1.
   destruct (H k (or_introl eq_refl)) as [[S D]|[S [M [N D]]]]; rewrite S; cbn [negb].
-  - destruct k as [a cols|n cols|n cols rt rcols od ou|n e|n cols]; cbn [single_key_of] in S; try discriminate;
-      destruct cols as [|x [|y r']]; try discriminate; [reflexivity|].
-    cbn [shrink flat_map ix_cols]. rewrite (drop_in_single c x S). reflexivity.
+  - destruct (single_key_shape c k S) as [x [X [[n E]|[[n E]|[a E]]]]]; subst k; try reflexivity.
+    cbn [shrink flat_map ix_cols]. rewrite (drop_in_single c x X). reflexivity.
   - cbn [flat_map]. f_equal.
     destruct k as [a cols|n cols|n cols rt rcols od ou|n e|n cols]; try reflexivity.
     cbn [constraint_mentions constraint_nonempty constraint_columns] in M, N.
@@ -143,8 +211,7 @@ Proof.
               match k with CUnique _ cols | CIndex _ cols => ix_cols i = cols | _ => False end -> ix_hyp c i).
   { intros k Ik Hc. unfold ix_hyp.
     destruct (H k Ik) as [[S D]|[S [M [N D]]]].
-    - left. destruct k as [a cols|n cols|n cols rt rcols od ou|n e|n cols]; cbn [single_key_of] in S; try discriminate;
-        destruct cols as [|x [|y r']]; try discriminate; exists x; split; assumption.
+    - left. destruct (single_key_shape c k S) as [x [X [[n E]|[[n E]|[a E]]]]]; subst k; try contradiction; exists x; split; assumption.
     - right. destruct k as [a cols|n cols|n cols rt rcols od ou|n e|n cols]; try contradiction; rewrite Hc;
         cbn [constraint_mentions constraint_nonempty constraint_columns] in M, N; split; assumption. }
   destruct Ii as [Ii|Ii].
@@ -191,6 +258,7 @@ Proof.
   intros s a H s' Ha P. unfold delete_column_keys_sim_hyp in H.
   destruct a as [tb cols0 ks0|tb|tb cl fw|tb f2 t2|t c|tb cn ty fw|tb cn nl fw|tb cn nd|tb cn nc|tb k|tb k|f2 t2|sql]; try discriminate.
   destruct (find_table t s) as [td|] eqn:Ft; [|discriminate].
+  apply Bool.andb_true_iff in H; destruct H as [H Hle].
   apply Bool.andb_true_iff in H; destruct H as [H Hlen].
   apply Bool.andb_true_iff in H; destruct H as [H Hnref].
   apply Bool.andb_true_iff in H; destruct H as [H Hne].
@@ -201,6 +269,7 @@ Proof.
   apply Bool.negb_true_iff in Hnref.
   destruct (find_table_in t s td Ft) as [Hin Htn].
   pose proof (keys_hyp_all c _ Hnm Hne) as Hk.
+  pose proof (pk_hyp_first c _ Hk) as Hpk.
   set (ks' := filter (keeps c) (t_constraints td)).
   set (td' := mkTable (t_name td) (t_description td) (filter (fun x => negb (String.eqb (c_name x) c)) (t_columns td)) ks').
   destruct (frame s t (fun t0 => if has_column c t0
@@ -215,7 +284,7 @@ Proof.
   assert (Ftb : find_tb t (catalog_of s) = Some (catalog_of_table td)) by (rewrite find_tb_catalog_of, Ft; reflexivity).
   assert (Hao : auto_ok (catalog_of_table td) = true).
   { unfold wf_auto in Hwfa. rewrite forallb_forall in Hwfa. apply Hwfa. exact Hin. }
-  (* foreign keys and the primary key never mention the column *)
+  (* foreign keys never mention the column *)
   assert (Hfk : forall f, In f (create_fks (t_name td) (t_constraints td)) ->
                           mem_str c (fk_cols f) = false /\ nonempty (fk_cols f) = true).
   { intros f If. destruct (in_create_fks _ _ _ If) as [n [cols [rt [rcols [od [ou [Ik Hfe]]]]]]]. subst f.
@@ -223,18 +292,14 @@ Proof.
     destruct (Hk _ Ik) as [[S _]|[_ [M [N _]]]]; [discriminate|].
     cbn [constraint_mentions constraint_nonempty] in M, N.
     apply Bool.orb_false_iff in M. apply Bool.andb_true_iff in N. split; [apply M|apply N]. }
-  assert (Hpkc : forall p, first_pk (t_constraints td) = Some p -> mem_str c p = false /\ nonempty p = true).
-  { intros p Fp. destruct (first_pk_in _ _ Fp) as [a0 Ia].
-    destruct (Hk _ Ia) as [[S _]|[_ [M [N _]]]]; [discriminate|].
-    cbn [constraint_mentions constraint_nonempty constraint_columns] in M, N. split; assumption. }
   pose proof (explicit_ix_hyp (t_name td) c _ Hk) as Hex.
+  assert (Hgen : forall K i, In i (generated_indexes K (create_fks (t_name td) (t_constraints td))) ->
+                             mem_str c (ix_cols i) = false /\ nonempty (ix_cols i) = true).
+  { intros K i Ii. destruct (generated_from_fk _ _ _ Ii) as [f [If Hc]]. rewrite Hc. apply Hfk. exact If. }
   (* the table MySQL is left with is the believed table of the shrunk definition *)
   assert (Ht : mkMTable (t_name td)
                  (filter (fun x => negb (String.eqb (mc_name x) c)) (tb_cols (catalog_of_table td)))
-                 (match tb_pk (catalog_of_table td) with
-                  | Some p => if nonempty (drop_in c p) then Some (drop_in c p) else None
-                  | None => None
-                  end)
+                 (pk_shrink c (tb_pk (catalog_of_table td)))
                  (shrink c (tb_indexes (catalog_of_table td)))
                  (tb_fks (catalog_of_table td)) (tb_checks (catalog_of_table td))
                = catalog_of_table td').
@@ -246,25 +311,18 @@ Proof.
     change (tb_checks (catalog_of_table td)) with (checks_of (t_constraints td)).
     change (flat_map (fun k => match k with CCheck n e => [(n, e)] | _ => [] end) (filter (keeps c) (t_constraints td)))
       with (checks_of (filter (keeps c) (t_constraints td))).
-    rewrite first_pk_keeps, auto_cols_keeps, create_fks_keeps, checks_keeps.
-    assert (Epk : match first_pk (t_constraints td) with
-                  | Some p => if nonempty (drop_in c p) then Some (drop_in c p) else None
-                  | None => None
-                  end = first_pk (t_constraints td)).
-    { destruct (first_pk (t_constraints td)) as [p|] eqn:Fp; [|reflexivity].
-      destruct (Hpkc p eq_refl) as [M N]. rewrite (drop_in_notin _ _ M), N. reflexivity. }
-    rewrite Epk. f_equal.
-    cbn [catalog_of_table tb_indexes]. rewrite shrink_app.
-    rewrite (explicit_keeps _ c _ Hk).
+    rewrite (first_pk_keeps c _ Hk Hle), create_fks_keeps, checks_keeps.
     f_equal.
-    set (K := (match first_pk (t_constraints td) with Some p => [p] | None => [] end)).
-    (* the generated indexes: untouched by the shrink, and blind to the removed one-column keys *)
-    transitivity (generated_indexes (K ++ map ix_cols (explicit_indexes (t_name td) (t_constraints td)))
-                                    (create_fks (t_name td) (t_constraints td))).
-    - apply shrink_id. intros i Ii. destruct (generated_from_fk _ _ _ Ii) as [f [If Hc]]. rewrite Hc. apply Hfk. exact If.
-    - apply generated_cov_ext. intros f If. destruct (Hfk f If) as [M N].
-      rewrite !existsb_app. f_equal. symmetry. apply existsb_shrink; [|exact Hex].
-      intros x X. apply (is_prefix_single_other c x _ X M N). }
+    - (* columns: the remaining columns do not see the removed keys *)
+      apply map_ext_in. intros x Ix. apply filter_In in Ix. destruct Ix as [_ Nx]. apply Bool.negb_true_iff in Nx.
+      unfold mk_mcol. rewrite (mem_pk_shrink c (c_name x) _ Nx Hpk), (auto_mem_keeps c (c_name x) _ Nx). reflexivity.
+    - cbn [catalog_of_table tb_indexes]. rewrite shrink_app, (explicit_keeps _ c _ Hk). f_equal.
+      (* the generated indexes: untouched by the shrink, and blind to the removed one-column keys *)
+      rewrite (shrink_id c _ (Hgen _)).
+      apply generated_cov_ext. intros f If. destruct (Hfk f If) as [M N].
+      rewrite !existsb_app. f_equal.
+      + symmetry. apply existsb_pk_shrink; [|exact Hpk]. intros x X. apply (is_prefix_single_other c x _ X M N).
+      + symmetry. apply existsb_shrink; [|exact Hex]. intros x X. apply (is_prefix_single_other c x _ X M N). }
   assert (E : exec (catalog_of s) (SDropColumn t c) = Ok (catalog_of s')).
   { cbn [exec]. unfold with_tb. rewrite Ftb. rewrite has_mcol_catalog, Hhas. cbn [negb].
     rewrite catalog_of_table_cols at 1. rewrite map_length.
@@ -276,49 +334,25 @@ Proof.
       apply existsb_exists in E1. destruct E1 as [f [If Hm]]. cbn [catalog_of_table tb_fks] in If.
       destruct (Hfk f If) as [M _]. rewrite M in Hm. discriminate. }
     rewrite F1. rewrite (no_inbound_column s t c Hnref).
-    cbn zeta. fold (shrink c (tb_indexes (catalog_of_table td))).
+    cbn zeta. fold (shrink c (tb_indexes (catalog_of_table td))). fold (pk_shrink c (tb_pk (catalog_of_table td))).
     change (tb_name (catalog_of_table td)) with (t_name td).
     rewrite !Ht.
     assert (Hao' : auto_ok (catalog_of_table td') = true).
-    { rewrite <- Ht. unfold auto_ok in *. cbn [tb_cols tb_pk tb_indexes key_col_lists].
-      assert (Hna : mem_str c (auto_increment_columns (t_constraints td)) = false).
-      { destruct (mem_str c (auto_increment_columns (t_constraints td))) eqn:Em; [|reflexivity]. exfalso.
-        unfold mem_str in Em. apply existsb_exists in Em. destruct Em as [y [Iy Hy]]. apply String.eqb_eq in Hy. subst y.
-        unfold auto_increment_columns in Iy. apply in_flat_map in Iy. destruct Iy as [k [Ik Iy]].
-        destruct k as [[|] pc| | | |]; cbn in Iy; try contradiction.
-        destruct (Hk _ Ik) as [[S _]|[_ [M _]]]; [discriminate|]. cbn [constraint_mentions constraint_columns] in M.
-        assert (M2 : mem_str c pc = true) by (unfold mem_str; apply existsb_exists; exists c; split; [exact Iy|apply String.eqb_refl]).
-        rewrite M2 in M. discriminate. }
-      rewrite filter_auto_drop.
-      2:{ intros x Ix Hx. rewrite catalog_of_table_cols in Ix. apply in_map_iff in Ix. destruct Ix as [cd [Hcd Icd]]. subst x.
-          rewrite mc_name_mk in Hx. unfold mk_mcol. cbn [mc_auto]. apply String.eqb_eq in Hx. rewrite Hx, Hna. reflexivity. }
-      destruct (filter mc_auto (tb_cols (catalog_of_table td))) as [|au [|au2 r2]] eqn:Fa; try reflexivity; [|exact Hao].
-      (* the one auto column is not c: it sits in an AUTO_INCREMENT primary key *)
-      assert (Hau : String.eqb (mc_name au) c = false).
-      { assert (Iau : In au (filter mc_auto (tb_cols (catalog_of_table td)))) by (rewrite Fa; left; reflexivity).
-        apply filter_In in Iau. destruct Iau as [Iau Aau]. rewrite catalog_of_table_cols in Iau.
-        apply in_map_iff in Iau. destruct Iau as [cd [Hcd Icd]]. subst au. cbn [mk_mcol mc_auto mc_name] in *.
-        apply Bool.andb_true_iff in Aau. destruct Aau as [Aau _].
-        destruct (String.eqb (c_name cd) c) eqn:En; [|reflexivity]. apply String.eqb_eq in En. rewrite En, Hna in Aau. discriminate. }
-      unfold key_col_lists in Hao. cbn [tb_pk tb_indexes catalog_of_table] in Hao.
-      change (tb_pk (catalog_of_table td)) with (first_pk (t_constraints td)).
-      change (tb_indexes (catalog_of_table td))
-        with (explicit_indexes (t_name td) (t_constraints td)
-              ++ generated_indexes ((match first_pk (t_constraints td) with Some p => [p] | None => [] end)
-                                    ++ map ix_cols (explicit_indexes (t_name td) (t_constraints td)))
-                                   (create_fks (t_name td) (t_constraints td))).
-      assert (Epk : match first_pk (t_constraints td) with
-                    | Some p => if nonempty (drop_in c p) then Some (drop_in c p) else None
-                    | None => None
-                    end = first_pk (t_constraints td)).
-      { destruct (first_pk (t_constraints td)) as [p|] eqn:Fp; [|reflexivity].
-        destruct (Hpkc p eq_refl) as [M N]. rewrite (drop_in_notin _ _ M), N. reflexivity. }
-      rewrite Epk. unfold key_col_lists. cbn [tb_pk tb_indexes].
-      rewrite existsb_app in Hao |- *. rewrite map_app, existsb_app in Hao.
-      rewrite shrink_app, map_app, existsb_app.
-      rewrite existsb_shrink; [|intros x X; apply String.eqb_eq in X; subst x; cbn beta iota; rewrite String.eqb_sym; exact Hau|exact Hex].
-      rewrite (shrink_id c (generated_indexes _ _)); [exact Hao|].
-      intros i Ii. destruct (generated_from_fk _ _ _ Ii) as [f [If Hc]]. rewrite Hc. apply Hfk. exact If. }
+    { rewrite <- Ht. unfold auto_ok in *. cbn [tb_cols tb_pk tb_indexes].
+      rewrite filter_comm.
+      destruct (filter mc_auto (tb_cols (catalog_of_table td))) as [|au [|au2 r2]]; try reflexivity; [|discriminate].
+      cbn [filter]. destruct (String.eqb (mc_name au) c) eqn:Hau; cbn [negb]; [reflexivity|].
+      (* the auto column stays and is not c: its key is not one of the removed one-column keys *)
+      assert (Hq : forall x, String.eqb x c = true ->
+                             (fun k : list string => match k with x0 :: _ => String.eqb x0 (mc_name au) | [] => false end) [x] = false).
+      { intros x X. apply String.eqb_eq in X. subst x. rewrite String.eqb_sym. exact Hau. }
+      unfold key_col_lists in *. cbn [tb_pk tb_indexes] in *.
+      change (tb_pk (catalog_of_table td)) with (first_pk (t_constraints td)) in *.
+      rewrite existsb_app in Hao |- *.
+      rewrite (existsb_pk_shrink c _ _ Hq Hpk).
+      cbn [catalog_of_table tb_indexes] in Hao |- *.
+      rewrite map_app, existsb_app in Hao. rewrite shrink_app, map_app, existsb_app.
+      rewrite (existsb_shrink c _ _ Hq Hex), (shrink_id c _ (Hgen _)). exact Hao. }
     rewrite Hao'. cbn [negb]. rewrite Cs. reflexivity. }
   unfold run. cbn [run_from]. rewrite E. reflexivity.
 Qed.
@@ -330,3 +364,6 @@ Definition w_keys_schema : schema :=
       mkCol "name" (TVarchar 32) false None None None None None None;
       mkCol "n" (TSimple Integer) true None None None None None None]
      [CPrimaryKey true ["id"]; CUnique None ["name"]; CIndex (Some "by_name") ["name"]; CIndex None ["n"]]].
+(* thorough seed 1, case 421: the single primary-key column is dropped (a new primary key follows in the same plan) *)
+Definition w_pk_drop_plan : list action :=
+  [DeleteColumn "t" "id"; AddConstraint "t" (CPrimaryKey false ["name"])].
